@@ -264,4 +264,26 @@ def contentTypeOf (p : Pad) : Nat := p.enc
 def getVault (padKey : Nat → Nat) (key : Nat) (reply : Reply B) : Except VaultErr Pad :=
   getVaultWith Gen.ClientRead.netSplitChecksPadKey padKey key reply
 
+/-- how the vault WRITE path starts (`get_or_create_scratchpad`): continue the version read, start a new vault (counter 0,
+to be paid for), or fail -/
+inductive WriteStart where
+  | existing (p : Pad)
+  | fresh
+  | error (cls : String)
+  deriving DecidableEq, Repr
+
+/-- `Client::get_or_create_scratchpad`: with `onlyNf` a new vault is started only when the read said `RecordNotFound`
+and every other failure of the read fails the write; without it every failed read was taken for "no vault yet" -/
+def getOrCreateWith (onlyNf : Bool) (padKey : Nat → Nat) (key : Nat) (reply : Reply B) : WriteStart :=
+  match getVault padKey key reply with
+  | .ok p => .existing p
+  | .error e =>
+    if !onlyNf then .fresh
+    else match e with
+      | .network cls => if cls = "nf" then .fresh else .error cls
+      | _ => .error "badowner"
+
+def getOrCreate (padKey : Nat → Nat) (key : Nat) (reply : Reply B) : WriteStart :=
+  getOrCreateWith Gen.ClientRead.vaultWriteCreatesOnlyOnNotFound padKey key reply
+
 end SafeNet.Model.ClientRead
